@@ -172,6 +172,22 @@ def check(ctx, case):
         per_thr = np.asarray(pk["pcks"], float).mean(axis=(0, 1))
         if np.any(np.diff(per_thr) < -1e-12):
             ctx.violation("pck-not-monotone", f"PCK decreases with the pixel threshold: {pthr.tolist()} -> {per_thr.tolist()}", small)
+        # the caller's threshold array need not be ascending: monotonicity is in the threshold *value*, whatever the array order
+        r2 = np.random.default_rng(case["seed"] + 1)
+        perm = r2.permutation(len(thr)) if case["seed"] % 2 else np.arange(len(thr))[::-1]
+        with np.errstate(all="ignore"):
+            v5 = ev.voc_metrics(match_score_thresholds=thr[perm])
+        o = np.argsort(thr[perm], kind="stable")
+        for k in ("AP", "AR"):
+            a = np.asarray(v5["oks_voc." + k], float)[o]
+            ctx.count("unsorted_threshold_checks")
+            if np.any(np.diff(a) > 1e-12):
+                ctx.violation("voc-not-monotone-unsorted-thresholds", f"{k} increases with the match threshold when thresholds are passed as {np.round(thr[perm], 3).tolist()}: {k}={np.asarray(v5['oks_voc.' + k], float).tolist()}", small)
+        pperm = r2.permutation(len(pthr))
+        pk2 = ev.pck_metrics(thresholds=pthr[pperm])
+        per2 = np.asarray(pk2["pcks"], float).mean(axis=(0, 1))[np.argsort(pthr[pperm], kind="stable")]
+        if np.any(np.diff(per2) < -1e-12):
+            ctx.violation("pck-not-monotone-unsorted-thresholds", f"PCK decreases with the pixel threshold when thresholds are passed as {np.round(pthr[pperm], 2).tolist()}", small)
     # ---- D. deleting predictions never increases recall
     base_AR = np.asarray(v2["oks_voc.AR"], float) if has_pairs else np.zeros(len(thr))
     all_ids = [(f, j) for f, fr in enumerate(case["frames"]) for j in range(len(fr["pr"]))]
